@@ -31,7 +31,7 @@ theorem request_frame (mode : Mode) (c : Nat) (fields : List Bytes) (s : Sys)
   obtain ⟨h0, h1, h2, h3, h4, h5, h6⟩ := hname
   intro j hj
   have hrel := processCommand_rel (T := fun j => j = (s.conn c).db) (c := c) (A := fun _ => True)
-    (D1 := s.srv.dbs) (D2 := s.srv.dbs) mode fields ⟨h1, h2, h3, fun h => absurd h h0⟩ h5 h6 trivial
+    (D1 := s.srv.dbs) (D2 := s.srv.dbs) mode fields ⟨h1, h2, h3, fun h => absurd h h0, h5, h6⟩ h5 h6 trivial
     (fun h => absurd h h4)
   exact (hrel s s (Sim.refl s (fun _ => rfl) (fun _ _ _ _ => trivial))).2.off1 j hj
 
@@ -153,17 +153,18 @@ example : flushArgsOk (Cmd.rawArgs []) = true := by decide
 /-! ## 3. EXEC -/
 
 theorem qallowed_of_name (T : Nat → Prop) (n : String) (args : List Bytes) (h1 : n ≠ "swapdb") (h2 : n ≠ "move")
-    (h3 : n ≠ "flushall") (hs : n = "select" → ∀ k, selTarget args = some k → T k) : QAllowed T (n, args) :=
-  ⟨h1, h2, h3, hs⟩
+    (h3 : n ≠ "flushall") (hs : n = "select" → ∀ k, selTarget args = some k → T k)
+    (h4 : n ≠ "eval") (h5 : n ≠ "evalsha") : QAllowed T (n, args) :=
+  ⟨h1, h2, h3, hs, h4, h5⟩
 
 /-- the databases named by the SELECTs of a queue -/
 def selTargets (q : Queue) : List Nat := q.filterMap fun e => if e.1 = "select" then selTarget e.2 else none
 
-/-- **EXEC.**  If no queued command is SWAPDB, MOVE or FLUSHALL, an EXEC request leaves identical every database that
-is neither the selected one nor the target of a queued SELECT.  (Queued EVAL / EVALSHA are not executed by the model —
-it reports `fault "model: command not modelled"` — so for them the statement says nothing about the Python code.) -/
+/-- **EXEC.**  If no queued command is SWAPDB, MOVE, FLUSHALL, EVAL or EVALSHA, an EXEC request leaves identical every
+database that is neither the selected one nor the target of a queued SELECT.  (A queued EVAL / EVALSHA is executed by
+EXEC exactly like a direct one, so it is excluded exactly like a direct one: the script may SELECT, FLUSHALL, … .) -/
 theorem exec_frame (mode : Mode) (c : Nat) (fields : List Bytes) (s : Sys) (hname : cmdName fields = "exec")
-    (hq : ∀ q, (s.conn c).tx = some q → ∀ e ∈ q, e.1 ∉ ["swapdb", "move", "flushall"]) :
+    (hq : ∀ q, (s.conn c).tx = some q → ∀ e ∈ q, e.1 ∉ ["swapdb", "move", "flushall", "eval", "evalsha"]) :
     ∀ j, j ≠ (s.conn c).db → (∀ q, (s.conn c).tx = some q → j ∉ selTargets q) →
       (processCommand mode c fields s).2.srv.dbs.getD j [] = s.srv.dbs.getD j [] := by
   intro j hj hjq
@@ -172,11 +173,12 @@ theorem exec_frame (mode : Mode) (c : Nat) (fields : List Bytes) (s : Sys) (hnam
     intro q hq' e he
     have := hq q hq' e he
     simp only [List.mem_cons, List.not_mem_nil, or_false, not_or] at this
-    refine ⟨this.1, this.2.1, this.2.2, fun hsel k hk => Or.inr ⟨q, hq', ?_⟩⟩
+    refine ⟨this.1, this.2.1, this.2.2.1, fun hsel k hk => Or.inr ⟨q, hq', ?_⟩, this.2.2.2.1, this.2.2.2.2⟩
     exact List.mem_filterMap.2 ⟨e, he, by simp [hsel, hk]⟩
   have hself : QAllowed T (cmdName fields, fields.tail) := by
     rw [hname]
     exact qallowed_of_name T "exec" _ (by decide) (by decide) (by decide) (fun h => absurd h (by decide))
+      (by decide) (by decide)
   have hrel := processCommand_rel (T := T) (c := c) (A := QAllowed T) (D1 := s.srv.dbs) (D2 := s.srv.dbs) mode fields
     hself (by rw [hname]; decide) (by rw [hname]; decide) hself (fun _ _ h => h)
   refine (hrel s s (Sim.refl s (fun _ => Or.inl rfl) hqa)).2.off1 j ?_
@@ -184,9 +186,10 @@ theorem exec_frame (mode : Mode) (c : Nat) (fields : List Bytes) (s : Sys) (hnam
   · exact hj h
   · exact hjq q hq' hm
 
-/-- EXEC without queued SELECT, SWAPDB, MOVE, FLUSHALL: every database other than the selected one is identical -/
+/-- EXEC without queued SELECT, SWAPDB, MOVE, FLUSHALL, EVAL, EVALSHA: every database other than the selected one is
+identical -/
 theorem exec_frame_noselect (mode : Mode) (c : Nat) (fields : List Bytes) (s : Sys) (hname : cmdName fields = "exec")
-    (hq : ∀ q, (s.conn c).tx = some q → ∀ e ∈ q, e.1 ∉ ["select", "swapdb", "move", "flushall"]) :
+    (hq : ∀ q, (s.conn c).tx = some q → ∀ e ∈ q, e.1 ∉ ["select", "swapdb", "move", "flushall", "eval", "evalsha"]) :
     ∀ j, j ≠ (s.conn c).db →
       (processCommand mode c fields s).2.srv.dbs.getD j [] = s.srv.dbs.getD j [] := by
   intro j hj
@@ -228,14 +231,15 @@ theorem request_noninterference (T : Nat → Prop) (mode : Mode) (c : Nat) (fiel
 theorem reqOk_of_name (i : Nat) (fields : List Bytes) (h : cmdName fields ∉ "select" :: crossDb) :
     ReqOk (fun j => j = i) fields := by
   simp only [crossDb, List.mem_cons, List.not_mem_nil, or_false, not_or] at h
-  exact ⟨⟨h.2.1, h.2.2.1, h.2.2.2.1, fun hs => absurd hs h.1⟩, h.2.2.2.2.2.1, h.2.2.2.2.2.2⟩
+  exact ⟨⟨h.2.1, h.2.2.1, h.2.2.2.1, fun hs => absurd hs h.1, h.2.2.2.2.2.1, h.2.2.2.2.2.2⟩, h.2.2.2.2.2.1, h.2.2.2.2.2.2⟩
 
 /-- SELECT of the database the connection is already restricted to is covered as well -/
 theorem reqOk_select (T : Nat → Prop) (nameB b : Bytes) (k : Int) (hn : commandName nameB = some "select")
     (hb : Conv.dbIndex b = .ok k) (hT : T k.toNat) : ReqOk T [nameB, b] := by
   have : cmdName [nameB, b] = "select" := by simp [cmdName, hn]
   rw [ReqOk, this]
-  refine ⟨qallowed_of_name T "select" _ (by decide) (by decide) (by decide) (fun _ k' hk' => ?_), by decide, by decide⟩
+  refine ⟨qallowed_of_name T "select" _ (by decide) (by decide) (by decide) (fun _ k' hk' => ?_)
+    (by decide) (by decide), by decide, by decide⟩
   simp only [List.tail_cons, selTarget, hb, Option.some.injEq] at hk'
   exact hk' ▸ hT
 
